@@ -3,7 +3,7 @@
 against the current /repo HEAD (so that they keep applying when /repo moves by unrelated commits).
    /venv/bin/python docs/tie_tests/T18/make_diffs.py
 m* = semantic mutations of the trainer's orchestration (the check must report VIOLATION), h* = harmless edits
-(must stay quiet); m03 is /tmp/mut_out/C06/mutation_7.diff (seeded round 3)."""
+(must stay quiet); m03 is /tmp/mut_out/C06/mutation_7.diff (seeded round 3), m10 is /tmp/mut_out/C19/mutation_4.diff."""
 import difflib
 import os
 import subprocess
@@ -38,6 +38,40 @@ PASS2_LOOP = """        for password in file_input.read_password():
             
             # Parse the pcfg info
             pcfg_parser.parse(password)
+"""
+
+FIRST_OPEN = """    # Initialize the file input to read passwords from
+    file_input = TrainerFileInput(
+                    program_info['training_file'],
+                    program_info['encoding'],
+                    program_info['prefixcount'])
+"""
+HELPER_H = """    # Every pass has to read the training file in exactly the same way, so
+    # how it gets opened is spelled out once
+    def open_training():
+        return TrainerFileInput(
+                    program_info['training_file'],
+                    program_info['encoding'],
+                    program_info['prefixcount'])
+
+    # Initialize the file input to read passwords from
+    file_input = open_training()
+"""
+HELPER_M = """    # Every pass has to read its input in exactly the same way, so how the
+    # input files get opened is spelled out once
+    def open_input(filename):
+        return TrainerFileInput(
+                    filename,
+                    program_info['encoding'],
+                    program_info['prefixcount'])
+
+    # Initialize the file input to read passwords from
+    file_input = open_input(program_info['training_file'])
+"""
+MW_OLD = """        multiword_input = TrainerFileInput(
+            program_info['multiword'],
+            program_info['encoding']
+        )
 """
 
 EDITS = {
@@ -136,6 +170,10 @@ EDITS = {
     print("-------------------------------------------------")  
     print("Calculating Markov (OMEN) probabilities and keyspace")
 """)],
+    "m10_helper_opens_the_multiword_list_with_prefixcount": [(RUN, FIRST_OPEN, HELPER_M),
+        (RUN, PASS2_OPEN, PASS2_OPEN.split("    file_input")[0] + "    file_input = open_input(program_info['training_file'])\n"),
+        (RUN, PASS3_OPEN, PASS3_OPEN.split("    file_input")[0] + "    file_input = open_input(program_info['training_file'])\n"),
+        (RUN, MW_OLD, "        multiword_input = open_input(program_info['multiword'])\n")],
     # ---------------- harmless edits
     "h1_comments_docstrings_print_texts": [(RUN, """    # Perform the first pass of the training list
 """, """    # First pass over the training list (comment reworded)
@@ -197,6 +235,9 @@ EDITS = {
 
             # Find OMEN level of password
 """)],
+    "h5_training_file_opened_by_a_helper": [(RUN, FIRST_OPEN, HELPER_H),
+        (RUN, PASS2_OPEN, PASS2_OPEN.split("    file_input")[0] + "    file_input = open_training()\n"),
+        (RUN, PASS3_OPEN, PASS3_OPEN.split("    file_input")[0] + "    file_input = open_training()\n")],
 }
 
 
